@@ -115,6 +115,14 @@ class Potential_Form_Registry(object):
     return table_forms
 
 
+  def check_formulas(self):
+    """Parse every [Potential-Form] formula now. Formulas are otherwise parsed when first evaluated, so one
+    that cannot be parsed would go unnoticed whenever the tabulation does not happen to evaluate it."""
+    for pf in self._potential_forms.values():
+      func = getattr(pf, "potential_function", None)
+      if hasattr(func, "compile"):
+        func.compile()
+
   def _check_not_shadowed(self, label, nargs, what):
     """A label that the expression language uses for one of its own functions (pow, mod, max, exp... in any case)
     would, inside a formula, call that function instead of the definition in the file: call a stand-in
